@@ -1,6 +1,7 @@
 import DltypeModel
 import Spec
 import Proofs.Complete
+import Properties.C01
 namespace Dltype.C02
 open Dltype Dltype.Spec Dltype.Proofs
 
@@ -66,5 +67,31 @@ theorem complete (acc : Acc) (σ₀ σ : Scope) (es : List Entry)
     (hr : RefsOrdered σ₀.keys es) :
     ∃ st', runEntries acc { σ := σ₀ } es = .ok st' ∧ ScopeLe st'.σ σ := by
   exact runEntries_complete acc { σ := σ₀ } es σ σ₀.keys hle (fun x hx => keys_has σ₀ x hx) hs hfresh hr
+
+/-- **C02 (call level)** a call whose annotated arguments and return value conform (fully) to one assignment
+    containing the provider's bindings, with fresh display names and ordered references, returns normally:
+    the body is executed exactly once and the caller receives the very value the body returned. -/
+theorem conforming_call_returns (acc : Acc) (d : FuncDecl) (p : Provider) (args : List (Name × Value))
+    (v : Value) (σ₀ σ : Scope) (es esr : List Entry) (isT : Bool) (as : List (Option Ann))
+    (hp : providerScope p = .ok σ₀) (ha : addParams args d.params = .ok es)
+    (hret : d.ret.bind (fun h => (resolveTypes h.anns).map (fun as => (h.isTuple, as))) = some (isT, as))
+    (hadd : addReturn isT as v = .ok esr)
+    (hle : ScopeLe σ₀ σ) (hs : ∀ e ∈ es ++ esr, EntryStrong acc σ e) (hfresh : NamesFresh [] (es ++ esr))
+    (hr : RefsOrdered σ₀.keys (es ++ esr)) :
+    (callWrapped acc d p args (.returns v)).result = .returned v ∧
+    (callWrapped acc d p args (.returns v)).bodyCalls = 1 := by
+  obtain ⟨st', hrun, _⟩ := complete acc σ₀ σ (es ++ esr) hle hs hfresh hr
+  rw [C01.runEntries_append] at hrun
+  cases h1 : runEntries acc { σ := σ₀ } es with
+  | ok st1 =>
+    simp only [h1] at hrun
+    have hargs : argsPhase acc d σ₀ args = .ok st1 := by simp [argsPhase, ha, h1]
+    unfold callWrapped
+    simp only [hp, hargs]
+    unfold returnPhase
+    simp [hret, hadd, hrun]
+  | reject r => simp [h1] at hrun
+  | pyExc e => simp [h1] at hrun
+  | unmodelled => simp [h1] at hrun
 
 end Dltype.C02
